@@ -89,11 +89,22 @@ type Req struct {
 	Host      string `json:"host"`                 // Request.Host as net/http reports it (the Host header)
 	HostClass string `json:"host_class,omitempty"` // how the generator chose it (label only)
 	Extra     []Hdr  `json:"extra,omitempty"`      // further headers, names that are not configured: irrelevant to admission
+
+	// scale (scale_test.go): that many further unconfigured headers X-Pad-<i>, one unconfigured header X-Pad-Big of that size
+	PadHeaders  int `json:"pad_headers,omitempty"`
+	PadValueLen int `json:"pad_value_len,omitempty"`
+}
+
+// BulkAt: a bulk of requests served before Reqs[At] (At == len(Reqs): after the last one).
+type BulkAt struct {
+	At   int  `json:"at"`
+	Bulk Bulk `json:"bulk"`
 }
 
 type Case struct {
-	Cfg  Cfg   `json:"cfg"`
-	Reqs []Req `json:"reqs"`
+	Cfg   Cfg      `json:"cfg"`
+	Reqs  []Req    `json:"reqs"`
+	Bulks []BulkAt `json:"bulks,omitempty"` // scale: requests per listener instance
 }
 
 // ---------------------------------------------------------------------------- generator
@@ -390,7 +401,10 @@ func varyNameCase(t *rapid.T, n string) string {
 var muts = []string{"method-get", "method-put", "method-head", "path-wrong", "path-extra-query", "path-case", "path-prefix",
 	"hdr-missing", "hdr-wrong", "hdr-case", "hdr-truncated", "hdr-extended", "ua-wrong", "ua-missing", "ua-case", "ignored-altered"}
 
-func genReq(t *rapid.T, c Cfg, idx int) Req {
+func genReq(t *rapid.T, c Cfg, idx int) Req { return genReqN(t, c, -1) }
+
+// genReqN: forceNm < 0 draws the number of mutations; 0 / 1 force none / exactly one, 2 several.
+func genReqN(t *rapid.T, c Cfg, forceNm int) Req {
 	// start from the canonical Demon request for this configuration
 	// (TransportHttp.c:84-131: POST, one of the configured URIs ("/" when none), the
 	// configured user agent, every configured header string added verbatim).
@@ -432,13 +446,20 @@ func genReq(t *rapid.T, c Cfg, idx int) Req {
 
 	// 0 mutations (45%), exactly one (40%), several (15%)
 	nm := 0
-	switch k := rapid.IntRange(0, 19).Draw(t, "nmut"); {
-	case k < 9:
-		nm = 0
-	case k < 17:
-		nm = 1
-	default:
+	switch {
+	case forceNm == 0 || forceNm == 1:
+		nm = forceNm
+	case forceNm > 1:
 		nm = rapid.IntRange(2, 3).Draw(t, "nmut-many")
+	default:
+		switch k := rapid.IntRange(0, 19).Draw(t, "nmut"); {
+		case k < 9:
+			nm = 0
+		case k < 17:
+			nm = 1
+		default:
+			nm = rapid.IntRange(2, 3).Draw(t, "nmut-many")
+		}
 	}
 	var applied []string
 	for i := 0; i < nm; i++ {
@@ -629,9 +650,34 @@ func applyMut(t *rapid.T, c Cfg, r *Req, m string, target *string) bool {
 func gen(t *rapid.T) Case {
 	var c Case
 	c.Cfg = genCfg(t)
+	// about one case in 60: one count of the subject at a threshold-adjacent large value (scale_test.go)
+	scale := ""
+	if isScaleCase(t, 60) {
+		scale = rapid.SampledFrom(append([]string{"requests", "requests", "requests"}, scaleCfgDims...)).Draw(t, "scale-dim")
+		scaleCfg(t, &c.Cfg, scale)
+	}
 	n := rapid.IntRange(1, 6).Draw(t, "nreqs")
 	for i := 0; i < n; i++ {
 		c.Reqs = append(c.Reqs, genReq(t, c.Cfg, i))
+	}
+	switch scale {
+	case "request-header-count", "request-header-size":
+		var ps []*Req
+		for i := range c.Reqs {
+			ps = append(ps, &c.Reqs[i])
+		}
+		scaleReqs(t, ps, scale)
+	case "requests":
+		// the bulk before, between or after the ordinary requests, or split around some of them
+		b := genBulk(t, c.Cfg, false)
+		at := rapid.IntRange(0, n).Draw(t, "bulk-at")
+		if at < n && rapid.Bool().Draw(t, "bulk-split") {
+			x, y := b.split()
+			at2 := rapid.IntRange(at+1, n).Draw(t, "bulk-at-2")
+			c.Bulks = append(c.Bulks, BulkAt{at, x}, BulkAt{at2, y})
+		} else {
+			c.Bulks = append(c.Bulks, BulkAt{at, b})
+		}
 	}
 	return c
 }
@@ -961,8 +1007,8 @@ func run(c Case, report func(*core.Violation)) {
 	h, rec, stop := startListener(c.Cfg)
 	defer stop()
 	rec.Take()
-	for i, r := range c.Reqs {
-		agentID := uint32(0x0C120000 + i + 1)
+	served := 0
+	serveOne := func(r Req, i int, agentID uint32, pv *verdict, note lazyStr) {
 		w := httptest.NewRecorder()
 		nBefore := len(rec.Sessions)
 		h.GinEngine.ServeHTTP(w, buildRequest(r, agentID))
@@ -974,24 +1020,65 @@ func run(c Case, report func(*core.Violation)) {
 				admitted = true
 			}
 		}
-		assess(c.Cfg, r, i, agentID, w, admitted, newSessions, fmt.Sprint(ev), "", "", report)
+		assess(c.Cfg, r, i, agentID, w, admitted, newSessions, fmt.Sprint(ev), "", "", pv, note, report)
+		served++
 	}
+	bulkID := uint32(0x0C200000)
+	bulksAt := func(at int) {
+		for _, b := range c.Bulks {
+			if b.At != at {
+				continue
+			}
+			vs := make([]verdict, len(b.Bulk.Items))
+			for j, it := range b.Bulk.Items {
+				vs[j] = judge(c.Cfg, it.Req) // every request of the bulk is judged; the verdict of a template is computed once
+			}
+			k := 0
+			b.Bulk.each(func(j int, r Req) {
+				bulkID++
+				k++
+				kk, before := k, served
+				serveOne(r, 100000+j, bulkID, &vs[j], func() string {
+					return fmt.Sprintf(" [request %d of a bulk of %d (template %d), %d requests served by this listener before it]", kk, b.Bulk.total(), j, before)
+				})
+			})
+		}
+	}
+	for i, r := range c.Reqs {
+		bulksAt(i)
+		serveOne(r, i, uint32(0x0C120000+i+1), nil, nil)
+	}
+	bulksAt(len(c.Reqs))
 }
 
 // assess judges one served request against the configuration in force (cfg) and
 // reports what contradicts the statement.  pre/post qualify the signatures (sub-check h).
-func assess(cfg Cfg, r Req, i int, agentID uint32, w *httptest.ResponseRecorder, admitted bool, newSessions []*agent.Agent, ev string, pre, post string, report0 func(*core.Violation)) {
-	report := func(v *core.Violation) { v.Sig = pre + v.Sig + post; report0(v) }
-	feat := cfgFeatures(cfg)
-	v := judge(cfg, r)
-	where := fmt.Sprintf("request %d (%s %q host=%q(%s) ua=%v/%q headers=%v extra=%v peer=%s mut=%q) against cfg %+v", i, r.Method, r.URI, r.Host, r.HostClass, r.HasUA, r.UA, r.Headers, r.Extra, r.Peer, r.Mut, cfg)
+// pv: the verdict when the caller has it already (bulks); note: appended to the message.
+func assess(cfg Cfg, r Req, i int, agentID uint32, w *httptest.ResponseRecorder, admitted bool, newSessions []*agent.Agent, ev string, pre, post string, pv *verdict, note lazyStr, report0 func(*core.Violation)) {
+	report := func(v *core.Violation) {
+		v.Sig = pre + v.Sig + post
+		if note != nil {
+			v.Msg += note()
+		}
+		report0(v)
+	}
+	var v verdict
+	if pv != nil {
+		v = *pv
+	} else {
+		v = judge(cfg, r)
+	}
+	// built only when a violation is reported (bulks serve thousands of requests)
+	where := lazyStr(func() string {
+		return fmt.Sprintf("request %d (%s %q host=%q(%s) ua=%v/%q headers=%v extra=%v pad=%d/%d peer=%s mut=%q) against cfg %+v", i, r.Method, r.URI, r.Host, r.HostClass, r.HasUA, r.UA, r.Headers, r.Extra, r.PadHeaders, r.PadValueLen, r.Peer, r.Mut, cfg)
+	})
 
 	if admitted && v.MustReject {
 		report(core.V("admit|"+strings.Join(v.Reasons, "+"), "%s reached the agent protocol although it violates: %v", where, v.Reasons))
 		return
 	}
 	if !admitted && v.MustAdmit {
-		report(core.V("reject|satisfying|"+feat, "%s satisfies every configured constraint (canonical Demon form) but was not admitted: status %d, events %v", where, w.Code, ev))
+		report(core.V("reject|satisfying|"+cfgFeatures(cfg), "%s satisfies every configured constraint (canonical Demon form) but was not admitted: status %d, events %v", where, w.Code, ev))
 		return
 	}
 	if !admitted {
@@ -1121,6 +1208,29 @@ func classify(c Case) core.Class {
 	for _, l := range nameClasses {
 		cl.Labels = append(cl.Labels, "cfg:"+l)
 	}
+	cl.Labels = append(cl.Labels, cfgScaleLabels(c.Cfg)...)
+	var fates fateCounts
+	for _, r := range c.Reqs {
+		fates.add(c.Cfg, r, 1)
+		cl.Labels = append(cl.Labels, reqScaleLabels(r)...)
+	}
+	for _, b := range c.Bulks {
+		for _, it := range b.Bulk.Items {
+			fates.add(c.Cfg, it.Req, it.Times)
+		}
+		switch {
+		case b.At == 0:
+			cl.Labels = append(cl.Labels, "scale:bulk-before-the-ordinary-requests")
+		case b.At >= len(c.Reqs):
+			cl.Labels = append(cl.Labels, "scale:bulk-after-the-ordinary-requests")
+		default:
+			cl.Labels = append(cl.Labels, "scale:bulk-between-the-ordinary-requests")
+		}
+	}
+	if len(c.Bulks) > 1 {
+		cl.Labels = append(cl.Labels, "scale:bulk-split-around-ordinary-requests")
+	}
+	cl.Labels = append(cl.Labels, fates.labels()...)
 	var fp []string
 	for _, r := range c.Reqs {
 		v := judge(c.Cfg, r)
@@ -1155,6 +1265,7 @@ func classify(c Case) core.Class {
 		fp = fp[:1] // the first non-trivial request characterises the case
 	}
 	cl.Fingerprint = fmt.Sprintf("c=%s|redir=%v|hh=%v|%s|%s", bucket(nc), c.Cfg.BehindRedir, c.Cfg.HostHeader != "", cfgFeatures(c.Cfg), strings.Join(fp, ","))
+	noteScale("a", cl.Labels)
 	return cl
 }
 
@@ -1223,7 +1334,7 @@ func TestMain(m *testing.M) {
 func TestC12a(t *testing.T) {
 	core.Run(t, core.Spec[Case]{
 		Property: "C12", Sub: "a",
-		Rule: "every field of HTTPConfig is drawn: besides those below, 1-3 Hosts with/without port, HostHeader (unset / a name / name:port / equal to a host / resembling one), rotation, PortConn, proxy settings, kill date, working hours, method spelling, TLS (rarely - about 1/3000 quick, 1/1500 thorough: a real certificate is generated); requests additionally draw Request.Host (the canonical one = HostHeader or a host, case variant, port added/removed, one of Hosts, the bind address, garbage, empty, another host) and 0-3 further headers with names that are not configured (X-Forwarded-Host, Referer, Origin, Cookie, Content-Type, X-Real-IP, Forwarded, Authorization): by the statement none of these influences admission. Admission-relevant part: listener configuration (0-4 URIs with/without query or the [\"\"] form, user agent set/unset, 0-4 request headers 'Name: value' incl. the ignored Connection/Accept-Encoding and values containing ': ' and ':', 0-3 response headers with values containing ':', redirector flag) on the real handlers.HTTP after Start(); 1-6 requests generated around that configuration: the canonical Demon request, or with one / several of {GET,PUT,HEAD, wrong path, extra query, path case, path suffix, header missing/wrong/case/truncated/extended, user agent wrong/missing/case, ignored header altered; Unicode classes: a configured header value / the user agent / the URI with one letter replaced by a Unicode simple-case-folding partner outside the ASCII pair (long s U+017F for s, Kelvin sign U+212A for k, final sigma / sigma, micro sign / mu, Greek symbol variants) or by a confusable (fullwidth form, combining mark appended, the other normalisation form NFC/NFD, Cyrillic / Greek / Turkic look-alike incl. dotted capital I), the URI also percent-encoded - the pools of configured values contain s / k / sigma / micro / sharp s / composed letters for that; header repeated in the request with another value before / after the right one}, IPv4 and IPv6 peers, X-Forwarded-For present or not; body = valid registration. Header-NAME classes (4 of 10 configurations; each verified against HEAD over a real socket before it was modelled): entries of the Headers list named User-Agent (UserAgent setting unset / the same value / a different value), Host (HostHeader unset / set), Content-Length (equal to the body length or not), Content-Type, Cookie, Connection / Accept-Encoding, the same name twice (same / different values), a name differing only in case from another entry, names in non-canonical case (lower / upper), a name with a trailing blank; requests follow the configuration (user agent from the setting or, when only the Headers list names one, from the entry; Request.Host from the Host entry in half of the cases; stack-owned names are not sent as ordinary headers) and are mutated at those entries (user agent wrong / missing / case / fold partner / confusable, that header missing / different / truncated / extended / repeated); every request is judged on Request.Header as net/http delivers it (canonical names, no Host, Content-Length = body length, a name that is not a token undeliverable): admitted only if it matches method, URI, the UserAgent setting AND every entry the documented skip list (Connection, Accept-Encoding) does not exempt - a User-Agent entry is a header like any other (same lower-case form), a Host entry is matched against Request.Host (equal: accepted either way, HEAD never finds Host in Request.Header; different: decoy), a Content-Length entry against the body length, an undeliverable name rejects everything, a header repeated in the request that carries the configured value among its values is accepted either way. Oracle from the statement: a header value counts as 'the configured value' when it is byte-equal (must admit) or has the same lower-case form (the documented case-insensitive comparison: grey, accepted either way - that includes the Kelvin sign for k and dotted capital I for i, whose lower-case forms are k and i); a value that merely case-FOLDS to the configured one (long s, final sigma, micro sign) or is a confusable of it is a different value and must get the decoy, and the user agent and the URI compare exactly; admitted => all constraints hold; all hold => admitted with 200 + registration reply + every response header with its full value + ExternalIP = peer IP (or X-Forwarded-For iff redirector); otherwise 404 and no recorder event. Non-trivial: >=1 configured constraint and a request that satisfies all or violates exactly one; distinct = (constraint bucket, redirector, config feature, verdict kind of the first non-trivial request)",
+		Rule: "every field of HTTPConfig is drawn: besides those below, 1-3 Hosts with/without port, HostHeader (unset / a name / name:port / equal to a host / resembling one), rotation, PortConn, proxy settings, kill date, working hours, method spelling, TLS (rarely - about 1/3000 quick, 1/1500 thorough: a real certificate is generated); requests additionally draw Request.Host (the canonical one = HostHeader or a host, case variant, port added/removed, one of Hosts, the bind address, garbage, empty, another host) and 0-3 further headers with names that are not configured (X-Forwarded-Host, Referer, Origin, Cookie, Content-Type, X-Real-IP, Forwarded, Authorization): by the statement none of these influences admission. Admission-relevant part: listener configuration (0-4 URIs with/without query or the [\"\"] form, user agent set/unset, 0-4 request headers 'Name: value' incl. the ignored Connection/Accept-Encoding and values containing ': ' and ':', 0-3 response headers with values containing ':', redirector flag) on the real handlers.HTTP after Start(); 1-6 requests generated around that configuration: the canonical Demon request, or with one / several of {GET,PUT,HEAD, wrong path, extra query, path case, path suffix, header missing/wrong/case/truncated/extended, user agent wrong/missing/case, ignored header altered; Unicode classes: a configured header value / the user agent / the URI with one letter replaced by a Unicode simple-case-folding partner outside the ASCII pair (long s U+017F for s, Kelvin sign U+212A for k, final sigma / sigma, micro sign / mu, Greek symbol variants) or by a confusable (fullwidth form, combining mark appended, the other normalisation form NFC/NFD, Cyrillic / Greek / Turkic look-alike incl. dotted capital I), the URI also percent-encoded - the pools of configured values contain s / k / sigma / micro / sharp s / composed letters for that; header repeated in the request with another value before / after the right one}, IPv4 and IPv6 peers, X-Forwarded-For present or not; body = valid registration. Header-NAME classes (4 of 10 configurations; each verified against HEAD over a real socket before it was modelled): entries of the Headers list named User-Agent (UserAgent setting unset / the same value / a different value), Host (HostHeader unset / set), Content-Length (equal to the body length or not), Content-Type, Cookie, Connection / Accept-Encoding, the same name twice (same / different values), a name differing only in case from another entry, names in non-canonical case (lower / upper), a name with a trailing blank; requests follow the configuration (user agent from the setting or, when only the Headers list names one, from the entry; Request.Host from the Host entry in half of the cases; stack-owned names are not sent as ordinary headers) and are mutated at those entries (user agent wrong / missing / case / fold partner / confusable, that header missing / different / truncated / extended / repeated); every request is judged on Request.Header as net/http delivers it (canonical names, no Host, Content-Length = body length, a name that is not a token undeliverable): admitted only if it matches method, URI, the UserAgent setting AND every entry the documented skip list (Connection, Accept-Encoding) does not exempt - a User-Agent entry is a header like any other (same lower-case form), a Host entry is matched against Request.Host (equal: accepted either way, HEAD never finds Host in Request.Header; different: decoy), a Content-Length entry against the body length, an undeliverable name rejects everything, a header repeated in the request that carries the configured value among its values is accepted either way. Oracle from the statement: a header value counts as 'the configured value' when it is byte-equal (must admit) or has the same lower-case form (the documented case-insensitive comparison: grey, accepted either way - that includes the Kelvin sign for k and dotted capital I for i, whose lower-case forms are k and i); a value that merely case-FOLDS to the configured one (long s, final sigma, micro sign) or is a confusable of it is a different value and must get the decoy, and the user agent and the URI compare exactly; admitted => all constraints hold; all hold => admitted with 200 + registration reply + every response header with its full value + ExternalIP = peer IP (or X-Forwarded-For iff redirector); otherwise 404 and no recorder event. SCALE (about one case in 60; one count per case from the threshold-adjacent pool {63,64,65, 127..129, 255..257, 511..513, 999..1001, 1023..1025, 2047..2049, 4095..4097, 8191..8193}): requests served by one listener instance - a bulk of 1-3 request templates (one mutation / several / canonical / GET), each sent its share of the total, interleaved, placed before, between or after the ordinary requests or split around them, through the same gin engine, EVERY request judged by the ordinary oracle (totals up to 8193; templates that may be admitted are cut at 2049 per bulk in the quick tier, 8193 in the thorough one); configured request headers / URIs / hosts of the listener (cut at 1025 entries, inserted before / in the middle of / after the ordinary ones; HEAD accepts them), the size of one configured header value (up to 8193 bytes), unconfigured headers per request (up to 8193) and the size of one request header (up to 8193 bytes); labels scale:<what>:<bucket>, tallied in the evidence's extra block. Non-trivial: >=1 configured constraint and a request that satisfies all or violates exactly one; distinct = (constraint bucket, redirector, config feature, verdict kind of the first non-trivial request)",
 		Gen:  gen, Check: check, Classify: classify,
 		Assumptions: []string{
 			"requests are delivered in-process through GinEngine.ServeHTTP with canonical header names and trimmed values, as net/http's server delivers them",
